@@ -239,6 +239,14 @@ def header_event(inst, rng, prop="C03"):
         else:
             target.append(HeaderItem(m, u, val, d))
     las.other = "first line of other text\nsecond line; with punctuation (and brackets)"
+    if rng.random() < 0.3:
+        # the object under test is one that lasio READ with this case option (its sections compare case-insensitively)
+        try:
+            tmp = io.StringIO()
+            las.write(tmp, version=2.0)
+            las = lasio.read(tmp.getvalue(), mnemonic_case=case)
+        except Exception:
+            pass
     ev = {"op": "header", "prop": prop, "version": version, "case": case, "exc": "", "secs": [], "obs": [], "other": codes(las.other),
           "obs_other": [], "items": inst["items"], "sec": sec}
     names = [("Version", las.version), ("Well", las.well), ("Curves", las.curves), ("Parameter", las.params)]
